@@ -1619,6 +1619,20 @@ func (p *parser) hoistSymbols(scope *js_ast.Scope) {
 					continue
 				}
 
+				// All code inside a class is strict mode code. However, that's only
+				// recorded on the scope when the class is visited, which happens after
+				// symbols are hoisted. So this needs to be checked separately here.
+				isInsideClass := false
+				for s := scope.Parent; s != nil; s = s.Parent {
+					if s.Kind == js_ast.ScopeClassName {
+						isInsideClass = true
+						break
+					}
+				}
+				if isInsideClass {
+					continue
+				}
+
 				// In sloppy mode, block level functions behave like "let" except with
 				// an assignment to "var", sort of. This code:
 				//
